@@ -10,12 +10,13 @@ sys.path.insert(0, os.path.dirname(os.path.abspath(__file__)))
 import common as C
 
 AREA = "rd"
-VO_MODEL = ["gen/RdTables.vo", "rd/RdBase.vo", "rd/RdModel.vo", "rd/RdSpec.vo"]
+VO_MODEL = ["gen/RdTables.vo", "rd/RdBase.vo", "rd/RdModel.vo", "rd/RdSpec.vo", "rd/RdAwareModel.vo"]
 
 # oracle entry points (coq/extract/ExtractRd.v)
 E_MK, E_ADD, E_RSUB, E_NEG, E_ABS, E_ADDRD, E_SUBRD, E_MULINT, E_MULWITH, E_NORMALIZED = range(1, 11)
 E_EQB, E_HASH, E_BOOL, E_HASTIME, E_MKDIFF, E_RADD = 11, 12, 13, 14, 15, 16
 S_ADD, S_WF, S_DIFF, S_PRED, S_MSHIFT = 20, 21, 22, 23, 24
+E_MKDIFF_AWARE = 28
 
 REL = ("years", "months", "days", "hours", "minutes", "seconds", "microseconds")
 ABS = ("year", "month", "day", "hour", "minute", "second", "microsecond")
@@ -25,6 +26,26 @@ LIMIT = 1 << 61   # everything sent to / received from the oracle must fit OCaml
 
 def is_int(x):
     return isinstance(x, int) and not isinstance(x, bool)
+
+
+class WArg(object):
+    """a weekday argument with its INTENDED (weekday, n): the object handed to relativedelta is built the
+    documented way, relativedelta.MO..SU and MO(n) (_common.weekday.__call__), while the model and the spec
+    receive the intent -- so a change in _common.weekday / the MO..SU table is visible."""
+    __slots__ = ("weekday", "n")
+
+    def __init__(self, weekday, n):
+        self.weekday, self.n = weekday, n
+
+    def obj(self):
+        from dateutil import relativedelta as _rd
+        base = (_rd.MO, _rd.TU, _rd.WE, _rd.TH, _rd.FR, _rd.SA, _rd.SU)[self.weekday]
+        return base if self.n is None else base(self.n)
+
+
+def real_kw(kw):
+    """keyword arguments as handed to relativedelta (WArg -> the weekday object it describes)"""
+    return {k: (v.obj() if isinstance(v, WArg) else v) for k, v in kw.items()}
 
 
 def exc_code(ex):
@@ -159,7 +180,9 @@ def fits(ints):
 def kw_json(kw):
     out = {}
     for k, v in kw.items():
-        if k == "weekday" and v is not None and not is_int(v):
+        if k == "weekday" and isinstance(v, WArg):
+            out[k] = {"weekday": v.weekday, "n": v.n, "via": "MO..SU(n)"}
+        elif k == "weekday" and v is not None and not is_int(v):
             out[k] = {"weekday": v.weekday, "n": v.n}
         else:
             out[k] = v
@@ -170,7 +193,9 @@ def kw_from_json(j):
     from dateutil._common import weekday
     kw = {}
     for k, v in j.items():
-        if k == "weekday" and isinstance(v, dict):
+        if k == "weekday" and isinstance(v, dict) and v.get("via"):
+            kw[k] = WArg(v["weekday"], v["n"])
+        elif k == "weekday" and isinstance(v, dict):
             kw[k] = weekday(v["weekday"], v["n"])
         else:
             kw[k] = v
@@ -377,3 +402,31 @@ def nprocs(tier):
     if v > 0:
         return min(v, 16)
     return 4 if tier == "quick" else 12
+
+
+def measure_anchor_coverage(fn, ranges):
+    """run fn() in-process under coverage.py restricted to relativedelta.py; report which statements
+    of the anchored line ranges were executed (definitions run at import time are not counted)."""
+    try:
+        import coverage
+    except Exception:
+        return fn(), {"available": False}
+    path = os.path.join(C.SRC, "dateutil", "relativedelta.py")
+    cov = coverage.Coverage(branch=True, include=[path], data_file=None)
+    cov.start()
+    try:
+        res = fn()
+    finally:
+        cov.stop()
+    try:
+        an = cov._analyze(path)
+        inr = lambda n: any(a <= n <= b for a, b in ranges)
+        src_lines = open(path).read().splitlines()
+        is_def = lambda n: src_lines[n - 1].strip().startswith(("def ", "@", "class "))
+        stmts = sorted(n for n in an.statements if inr(n) and not is_def(n))
+        missing = sorted(n for n in an.missing if inr(n) and not is_def(n))
+        return res, {"available": True, "file": "src/dateutil/relativedelta.py", "ranges": [list(r) for r in ranges],
+                     "statements_in_ranges": len(stmts), "missing_statements_in_ranges": len(missing),
+                     "missing_lines": missing[:40]}
+    except Exception as ex:
+        return res, {"available": False, "error": repr(ex)}
